@@ -382,9 +382,12 @@ class Type2Tag(Tag):
         if self.ndef and self.ndef.is_writeable:
             memory = self.ndef._tag_memory
             offset = self.ndef._ndef_tlv_offset
-            memory[offset+1:offset+3] = b"\x00\xFE"
+            memory_size = memory[14] * 8 + 16
+            memory[offset+1] = 0x00
+            if offset + 2 < memory_size:
+                # terminator tlv only if there is room in the data area
+                memory[offset+2] = 0xFE
             if wipe is not None:
-                memory_size = memory[14] * 8 + 16
                 skip_bytes = self.ndef._skip_bytes
                 for offset in range(offset + 3, memory_size):
                     if offset not in skip_bytes:
